@@ -72,6 +72,31 @@ func runC09(c *core.Ctx) {
 					return absint.Bool(r == absint.EQ), true
 				}
 			}
+			// the standard library's three-way comparisons of ordered operands (strings.Compare, bytes.Compare,
+			// cmp.Compare, time.Time.Compare) give the sign of the operands' order
+			var x, y absint.Val
+			switch callee {
+			case "strings.Compare", "bytes.Compare", "cmp.Compare":
+				if len(args) == 2 {
+					x, y = args[0], args[1]
+				}
+			case "time.Time.Compare":
+				if len(args) == 1 {
+					x, y = recv, args[0]
+				}
+			}
+			if x != nil && y != nil {
+				if r, ok := oracle[x.Canon()+"|"+y.Canon()]; ok {
+					switch r {
+					case absint.LT:
+						return absint.Int(-1), true
+					case absint.EQ:
+						return absint.Int(0), true
+					case absint.GT:
+						return absint.Int(1), true
+					}
+				}
+			}
 			return nil, false
 		}
 		if extra != nil {
@@ -256,16 +281,46 @@ func lexRun(p *core.Program, fn *core.FuncRef, fieldHook func(*absint.State, abs
 	lens.Set(la, lb, lenRel)
 	in.Hooks.Loop = func(st *absint.State, loop ast.Stmt) *absint.LoopSpec {
 		var cases []string
+		// a loop that ranges over one of the two sequences: it has an iteration exactly for the positions of that
+		// sequence — it cannot meet that sequence's end inside an iteration, and it cannot run out before it met the
+		// end of the other, shorter one
+		ranged := ""
+		if rs, ok := loop.(*ast.RangeStmt); ok {
+			x := core.ExprStr(rs.X)
+			if id, ok := core.Unparen(rs.X).(*ast.Ident); ok {
+				if v := st.Lookup(id.Name); v != nil {
+					x = v.Canon()
+				}
+			}
+			switch x {
+			case a:
+				ranged = "a"
+			case b:
+				ranged = "b"
+			}
+		}
 		// with equal lengths neither sequence can end before the other inside the loop
-		switch lenRel {
-		case absint.LT:
+		switch {
+		case lenRel == absint.LT && ranged != "a":
 			cases = []string{"endA", "lt", "eq", "gt"}
-		case absint.GT:
+		case lenRel == absint.GT && ranged != "b":
 			cases = []string{"endB", "lt", "eq", "gt"}
 		default:
 			cases = []string{"lt", "eq", "gt"}
 		}
-		return &absint.LoopSpec{Cases: cases, RefStep: func(ref, cs string) string {
+		var exhaust func(st *absint.State) bool
+		if (ranged == "a" && lenRel == absint.GT) || (ranged == "b" && lenRel == absint.LT) {
+			want := map[string]string{"a": "endB", "b": "endA"}[ranged]
+			exhaust = func(st *absint.State) bool {
+				for _, t := range st.Trace {
+					if t == want {
+						return true
+					}
+				}
+				return false
+			}
+		}
+		return &absint.LoopSpec{Cases: cases, Exhaust: exhaust, RefStep: func(ref, cs string) string {
 			if ref != "" && ref != "eq*" {
 				if strings.HasSuffix(ref, "!") {
 					return ref
